@@ -91,7 +91,24 @@ func propC18(w *World, r *Report) {
 	r.Assumptions = []string{"bufio.Writer.Write copies its argument (standard library contract)", "Go channel semantics: FIFO, a buffered send of capacity-many items never blocks",
 		"file name collisions within one second across reconnects and disk errors (panic by design) are not decided"}
 	pkgRel := "cmd/thermal-writer"
-	hc := w.Func(pkgRel, "handleConn")
+	// the connection handler: the function of the package that creates channels and starts a goroutine
+	var hc *ssa.Function
+	for _, fn := range w.funcsInPkg(pkgRel) {
+		mk, gos := 0, 0
+		for _, b := range fn.Blocks {
+			for _, in := range b.Instrs {
+				switch in.(type) {
+				case *ssa.MakeChan:
+					mk++
+				case *ssa.Go:
+					gos++
+				}
+			}
+		}
+		if mk >= 1 && gos >= 1 {
+			hc = fn
+		}
+	}
 	if hc == nil {
 		r.Unknown("roles", "thermal-writer handleConn", "-", "function not found")
 		return
@@ -587,7 +604,14 @@ func checkHeaderSection(w *World, r *Report) {
 		r.Check(got == want, "W5", "constant "+name, "-", got)
 	}
 	// newThermalRaw writes the header before any frame: WriteHeader called on every successful return
-	nt := w.Func("cmd/thermal-writer", "newThermalRaw")
+	// the function that opens a new file: returns a *Builder and writes the header
+	var nt *ssa.Function
+	for _, f := range w.funcsInPkg("cmd/thermal-writer") {
+		if f.Signature.Results().Len() >= 1 && isPtrTo(f.Signature.Results().At(0).Type(), T) && reachableNames(f, 0)["WriteHeader"] {
+			nt = f
+		}
+	}
+	r.Check(nt != nil, "W5", "a function opens new files by writing the header section", "-", "")
 	if nt != nil {
 		okH := true
 		for _, b := range nt.Blocks {
@@ -615,9 +639,21 @@ func checkHeaderSection(w *World, r *Report) {
 }
 
 func checkBufferedClose(w *World, r *Report) {
-	T := w.NamedType("cmd/thermal-writer", "bufferedFile")
+	// the buffered file: the repo type of this package with Write and Close whose Close flushes a bufio.Writer
+	var T *types.Named
+	if sp := w.Pkg("cmd/thermal-writer"); sp != nil {
+		for _, mem := range sp.Members {
+			if t, ok := mem.(*ssa.Type); ok {
+				if n, ok := t.Type().(*types.Named); ok {
+					if cl := findMethod(w.Prog, n, "Close"); cl != nil && findMethod(w.Prog, n, "Write") != nil && reachableNames(cl, 1)["Flush"] {
+						T = n
+					}
+				}
+			}
+		}
+	}
 	if T == nil {
-		r.Unknown("W4", "bufferedFile", "-", "type not found")
+		r.Unknown("W4", "buffered file type", "-", "no type with Write and a flushing Close found in cmd/thermal-writer")
 		return
 	}
 	fn := findMethod(w.Prog, T, "Close")
